@@ -104,8 +104,8 @@ func (r *chainRun) viol(clause, format string, a ...interface{}) *Violation {
 	return &Violation{Prop: r.cfg.Prop, Clause: clause, Step: r.step, Op: r.op, Msg: fmt.Sprintf(format, a...)}
 }
 
-// ExecChain executes a chainsim plan.
-func ExecChain(plan *ChainPlan, cfg *ChainCfg, rc *RunCtx) *Violation {
+// setupChainRun boots the world of a chainsim plan (nodes at genesis, model, universe).
+func setupChainRun(plan *ChainPlan, cfg *ChainCfg, rc *RunCtx) (*chainRun, *Violation) {
 	g := &Genesis{Predist: map[int]string{0: "1000000000", 1: "500000000", 2: "70000"}, SlideWindow: plan.Window, NoFee: plan.NoFee, Award: "1000000"}
 	k := &Knobs{UtxoCache: plan.UtxoCache}
 	w := NewWorld(g, k)
@@ -159,6 +159,16 @@ func ExecChain(plan *ChainPlan, cfg *ChainCfg, rc *RunCtx) *Violation {
 		r.views = append(r.views, &nodeView{stored: []string{rid}, storedSet: map[string]bool{rid: true}, tip: rid, applied: map[string]bool{rid: true}})
 	}
 	w.RPC = r.rpc
+	return r, nil
+}
+
+// ExecChain executes a chainsim plan.
+func ExecChain(plan *ChainPlan, cfg *ChainCfg, rc *RunCtx) *Violation {
+	r, v := setupChainRun(plan, cfg, rc)
+	if v != nil {
+		return v
+	}
+	w := r.w
 	var crashBase *simkv.Disk
 	var stepAt []int
 	if cfg.Crash {
